@@ -226,6 +226,15 @@ func (t *translator) leanType(ty types.Type) string {
 	return ""
 }
 
+func isFuncSlice(ty types.Type) bool {
+	sl, ok := ty.Underlying().(*types.Slice)
+	if !ok {
+		return false
+	}
+	_, isSig := sl.Elem().Underlying().(*types.Signature)
+	return isSig
+}
+
 func isErrorType(ty types.Type) bool {
 	n, ok := ty.(*types.Named)
 	return ok && n.Obj().Pkg() == nil && n.Obj().Name() == "error"
@@ -345,6 +354,7 @@ type ptrv struct {
 }
 
 type sym struct {
+	emptyFuncs bool // a slice of function values known to be empty (variadic options not given)
 	binds     []sym // a closure's captured variables (pointers to their storage)
 	backLoc   loopLoc // for a backed slice: the array location and its generation when the slice was taken; the slice value
 	backGen   int     // is the list of the array's elements THEN, so it must not be used after the array was written
@@ -428,6 +438,7 @@ type ctx struct {
 	lstack   []*loopInfo
 	loopSeq  int
 	rerun    bool
+	forceCallee *ssa.Function
 	frames   []*inlineFrame
 	inlineSeq int
 	usesDefault bool
@@ -453,7 +464,7 @@ var leanKeywords = map[string]bool{"at": true, "from": true, "end": true, "fun":
 	"in": true, "then": true, "else": true, "if": true, "do": true, "open": true, "with": true, "match": true, "def": true,
 	"where": true, "by": true, "to": true, "instance": true, "structure": true, "class": true, "Type": true, "Prop": true,
 	"set": true, "local": true, "theorem": true, "example": true, "variable": true, "universe": true, "macro": true, "return": true,
-	"for": true, "mut": true, "deriving": true, "extends": true, "import": true, "namespace": true, "section": true, "using": true, "calc": true}
+	"for": true, "mut": true, "prefix": true, "infix": true, "infixl": true, "infixr": true, "postfix": true, "notation": true, "syntax": true, "attribute": true, "private": true, "protected": true, "partial": true, "unsafe": true, "noncomputable": true, "abbrev": true, "inductive": true, "axiom": true, "opaque": true, "mutual": true, "termination_by": true, "decreasing_by": true, "at'": false, "deriving": true, "extends": true, "import": true, "namespace": true, "section": true, "using": true, "calc": true}
 
 func leanIdent(s string) string {
 	if leanKeywords[s] {
@@ -659,6 +670,9 @@ func (c *ctx) store(p *ptrv, val string) {
 func (c *ctx) constExpr(k *ssa.Const) sym {
 	ty := k.Type()
 	if k.Value == nil {
+		if isFuncSlice(ty) {
+			return sym{expr: "([] : List Go.FnRef)", emptyFuncs: true, typ: ty}
+		}
 		if _, isSig := ty.Underlying().(*types.Signature); isSig {
 			return sym{fnNil: true, typ: ty}
 		}
@@ -1114,6 +1128,10 @@ func (c *ctx) instr(s *state, in ssa.Instruction, d int) {
 			if p.ptr == nil {
 				fail("load through an unknown pointer")
 			}
+			if p.emptyFuncs {
+				s.env[x] = sym{fnNil: true, typ: x.Type()}
+				return
+			}
 			cl := s.cells[p.ptr.cell.id]
 			if cl == nil {
 				fail("load from consumed memory")
@@ -1148,6 +1166,12 @@ func (c *ctx) instr(s *state, in ssa.Instruction, d int) {
 			v.typ = x.Type()
 			s.env[x] = v
 			return
+		}
+		if sl, ok := x.X.Type().Underlying().(*types.Slice); ok && isString(x.Type()) {
+			if b, ok := sl.Elem().Underlying().(*types.Basic); ok && b.Kind() == types.Uint8 {
+				bind(x, "(Go.strOfBytes "+c.val(s, x.X).expr+")")
+				return
+			}
 		}
 		if sl, ok := x.Type().Underlying().(*types.Slice); ok && isString(x.X.Type()) {
 			if b, ok := sl.Elem().Underlying().(*types.Basic); ok && b.Kind() == types.Uint8 {
@@ -1197,6 +1221,14 @@ func (c *ctx) instr(s *state, in ssa.Instruction, d int) {
 			s.env[x] = sym{ptr: np, typ: x.Type()}
 		case *types.Slice:
 			sl := c.val(s, x.X)
+			if sl.emptyFuncs {
+				// an element of a list known to be empty: never reached at run time; calling it ends the path
+				c.ncell++
+				cl := &cell{id: c.ncell, param: -2, root: &node{typ: xt.Elem(), expr: "(Go.fnRef \"\")"}}
+				s.cells[cl.id] = cl
+				s.env[x] = sym{ptr: &ptrv{cell: cl}, typ: x.Type(), emptyFuncs: true}
+				return
+			}
 			if sl.fromParam > 0 && !c.info.written[sl.fromParam-1] {
 				// remember that an element address was taken; a store through it marks the parameter as written (next pass)
 				idx0, _ := c.indexNat(s, x.Index)
@@ -1465,6 +1497,11 @@ func (c *ctx) call(s *state, x *ssa.Call, d int) {
 			return
 		case "len":
 			a0 := c.val(s, com.Args[0])
+			if a0.emptyFuncs {
+				fmt.Fprintf(&c.out, "%slet %s := (0 : Int)\n", ind(d), c.prefix+x.Name())
+				s.env[x] = sym{expr: c.prefix + x.Name(), typ: x.Type()}
+				return
+			}
 			switch at := com.Args[0].Type().Underlying().(type) {
 			case *types.Slice:
 				fmt.Fprintf(&c.out, "%slet %s := (Int.ofNat (%s).length)\n", ind(d), c.prefix+x.Name(), a0.expr)
@@ -1486,10 +1523,14 @@ func (c *ctx) call(s *state, x *ssa.Call, d int) {
 		if v.fnNil {
 			panic(pathPanics{}) // calling the nil function: this path panics
 		}
-		if v.fn == nil {
-			fail("dynamic call")
+		if v.fn == nil && c.forceCallee != nil {
+			callee = c.forceCallee
+		} else {
+			if v.fn == nil {
+				fail("dynamic call")
+			}
+			callee = v.fn
 		}
-		callee = v.fn
 	}
 	if ext, ok := externals[callee.String()]; ok {
 		var args []string
@@ -1505,6 +1546,26 @@ func (c *ctx) call(s *state, x *ssa.Call, d int) {
 	}
 	var spec map[int]*ssa.Function
 	for i, a := range com.Args {
+		if isFuncSlice(a.Type()) {
+			av := c.val(s, a)
+			if !av.emptyFuncs {
+				fail("passing a list of function values that is not known to be empty")
+			}
+			if spec == nil {
+				spec = map[int]*ssa.Function{}
+			}
+			spec[i] = nil
+			continue
+		}
+		if _, isI := a.Type().Underlying().(*types.Interface); isI && !isErrorType(a.Type()) && !isHandleType(a.Type()) {
+			if av := c.val(s, a); av.fnNil {
+				if spec == nil {
+					spec = map[int]*ssa.Function{}
+				}
+				spec[i] = nil
+			}
+			continue
+		}
 		if _, isSig := a.Type().Underlying().(*types.Signature); isSig {
 			av := c.val(s, a)
 			if av.fn == nil && !av.fnNil {
@@ -1549,6 +1610,14 @@ func (c *ctx) call(s *state, x *ssa.Call, d int) {
 		av := c.val(s, a)
 		if _, isSig := a.Type().Underlying().(*types.Signature); isSig {
 			continue // fixed by specialisation
+		}
+		if isFuncSlice(a.Type()) {
+			continue
+		}
+		if av.fnNil {
+			if _, isI := a.Type().Underlying().(*types.Interface); isI {
+				continue // fixed to nil by specialisation
+			}
 		}
 		_, isPtr := a.Type().Underlying().(*types.Pointer)
 		if av.iface && av.ptr != nil {
@@ -1930,7 +1999,7 @@ func (c *ctx) loop(s *state, b *ssa.BasicBlock, from *ssa.BasicBlock, onPath map
 	}
 	var initVals []sym
 	for _, ph := range li.phis {
-		v := c.val(s, ph.Edges[idx])
+		v := c.fnByName(c.val(s, ph.Edges[idx]))
 		if v.ptr != nil || v.fn != nil || v.comps != nil || v.iface {
 			fail("loop-carried pointer, function or interface value")
 		}
@@ -2071,7 +2140,7 @@ func (c *ctx) backEdge(s *state, li *loopInfo, from *ssa.BasicBlock, d int) {
 	}
 	var args []string
 	for _, ph := range li.phis {
-		v := c.val(s, ph.Edges[idx])
+		v := c.fnByName(c.val(s, ph.Edges[idx]))
 		if v.ptr != nil || v.fn != nil || v.comps != nil || v.iface {
 			fail("loop-carried pointer, function or interface value")
 		}
@@ -2101,6 +2170,19 @@ func (c *ctx) backEdge(s *state, li *loopInfo, from *ssa.BasicBlock, d int) {
 		return
 	}
 	fmt.Fprintf(&c.out, "%s%s %s' %s\n", ind(d), li.name, li.fuel, strings.Join(args, " "))
+}
+
+// fnByName: a known function (or nil) carried round a loop is carried by its name
+func (c *ctx) fnByName(v sym) sym {
+	if v.fn != nil && len(v.binds) == 0 {
+		return sym{expr: "(Go.fnRef \"" + c.t.fnName(v.fn) + "\")", typ: v.typ}
+	}
+	if v.fnNil {
+		if _, isSig := v.typ.Underlying().(*types.Signature); isSig {
+			return sym{expr: "(Go.fnRef \"\")", typ: v.typ}
+		}
+	}
+	return v
 }
 
 // leaf: a final result, seen from inside a nested loop function
@@ -2204,6 +2286,57 @@ func (c *ctx) inline(s *state, call *ssa.Call, callee *ssa.Function, binds []sym
 func (c *ctx) runInstrs(s *state, b *ssa.BasicBlock, start int, onPath map[*ssa.BasicBlock]bool, d int) {
 	for idx := start; idx < len(b.Instrs); idx++ {
 		in := b.Instrs[idx]
+		if call, ok := in.(*ssa.Call); ok && !call.Common().IsInvoke() && call.Common().StaticCallee() == nil {
+			if _, isB := call.Common().Value.(*ssa.Builtin); !isB {
+				if v := c.val(s, call.Common().Value); v.fn == nil && !v.fnNil && v.expr != "" {
+					// a function value known only by name (it came back from a call: the decoder's next mode): one branch per
+					// function of the package with that signature, compared by name
+					sig, ok := call.Common().Value.Type().Underlying().(*types.Signature)
+					if !ok {
+						fail("dynamic call")
+					}
+					var cands []*ssa.Function
+					for _, m := range c.fn.Pkg.Members {
+						if f, ok := m.(*ssa.Function); ok && f.Synthetic == "" && types.Identical(f.Signature, sig) {
+							cands = append(cands, f)
+						}
+					}
+					sort.Slice(cands, func(i, j int) bool { return cands[i].Name() < cands[j].Name() })
+					if len(cands) == 0 || len(cands) > 6 {
+						fail("dynamic call with %d candidates", len(cands))
+					}
+					for k, cand := range cands {
+						sk := s.clone()
+						kw := "if"
+						if k > 0 {
+							kw = "else if"
+						}
+						fmt.Fprintf(&c.out, "%s%s %s = (Go.fnRef \"%s\") then\n", ind(d), kw, v.expr, c.t.fnName(cand))
+						c.forceCallee = cand
+						ended := func() (ended bool) {
+							defer func() {
+								c.forceCallee = nil
+								if r := recover(); r != nil {
+									if _, ok := r.(pathPanics); !ok {
+										panic(r)
+									}
+									ended = true
+								}
+							}()
+							c.instr(sk, call, d+1)
+							return false
+						}()
+						if ended {
+							fmt.Fprintf(&c.out, "%s%s\n", ind(d+1), c.leaf("(Go.panicked default)"))
+							continue
+						}
+						c.runInstrs(sk, b, idx+1, onPath, d+1)
+					}
+					fmt.Fprintf(&c.out, "%selse\n%s%s\n", ind(d), ind(d+1), c.leaf("(Go.panicked default)"))
+					return
+				}
+			}
+		}
 		if call, ok := in.(*ssa.Call); ok && !call.Common().IsInvoke() {
 			if _, isB := call.Common().Value.(*ssa.Builtin); !isB && call.Common().StaticCallee() == nil {
 				if v := c.val(s, call.Common().Value); v.fn != nil && len(v.fn.FreeVars) > 0 {
@@ -2637,6 +2770,13 @@ func (t *translator) translateSpec(fn *ssa.Function, spec map[int]*ssa.Function)
 		fi.callsFi = map[*fnInfo]bool{}
 		s := &state{env: map[ssa.Value]sym{}, cells: map[int]*cell{}}
 		for i, p := range fn.Params {
+			if isFuncSlice(p.Type()) {
+				if _, fixed := spec[i]; !fixed {
+					fail("parameter of type %s (a list of function values, not fixed to empty)", p.Type())
+				}
+				s.env[p] = sym{expr: "([] : List Go.FnRef)", emptyFuncs: true, typ: p.Type()}
+				continue
+			}
 			if _, isSig := p.Type().Underlying().(*types.Signature); isSig {
 				f, fixed := spec[i]
 				if !fixed {
@@ -2650,6 +2790,10 @@ func (t *translator) translateSpec(fn *ssa.Function, spec map[int]*ssa.Function)
 				continue
 			}
 			if _, isI := p.Type().Underlying().(*types.Interface); isI && !isErrorType(p.Type()) && !isHandleType(p.Type()) {
+				if f, fixed := spec[i]; fixed && f == nil {
+					s.env[p] = sym{fnNil: true, typ: p.Type()} // the caller passes nil: nobody listens
+					continue
+				}
 				// an interface parameter is an abstract object (see invoke); it is taken to be non-nil
 				if _, named := p.Type().(*types.Named); !named {
 					fail("parameter of unnamed interface type")
@@ -2745,6 +2889,14 @@ func (t *translator) translateSpec(fn *ssa.Function, spec map[int]*ssa.Function)
 	for i, p := range fn.Params {
 		if _, isSig := p.Type().Underlying().(*types.Signature); isSig {
 			continue
+		}
+		if isFuncSlice(p.Type()) {
+			continue
+		}
+		if f, fixed := fi.spec[i]; fixed && f == nil {
+			if _, isI := p.Type().Underlying().(*types.Interface); isI {
+				continue
+			}
 		}
 		_, isPtr := p.Type().Underlying().(*types.Pointer)
 		_, isI := p.Type().Underlying().(*types.Interface)
@@ -2842,6 +2994,9 @@ func main() {
 			for i, p := range fn.Params {
 				if n, ok := p.Type().(*types.Named); ok && n.Obj().Name() == "printer" {
 					spec[i] = nil
+				}
+				if isFuncSlice(p.Type()) {
+					spec[i] = nil // variadic options: none given
 				}
 			}
 			if len(spec) > 0 {
